@@ -210,6 +210,12 @@ func c09Tally(r *fw.Rec, sym string, p c09Pose, outcome string, twoD bool) {
 	r.Tally(sym + "_" + outcome)
 	cell := fmt.Sprintf("%s_s%d_r%03d", sym, p.Scale, p.Rot)
 	if twoD {
+		if p.Scale >= 3 && minInt(minInt(p.PadL, p.PadR), minInt(p.PadT, p.PadB)) >= 4 {
+			r.Tally(sym + "_scale_ge3_padded_ge4_poses")
+			if outcome == "read" {
+				r.Tally(sym + "_scale_ge3_padded_ge4_read")
+			}
+		}
 		r.Tally(cell + "_poses")
 		if outcome == "read" {
 			r.Tally(cell + "_read")
@@ -770,27 +776,29 @@ func c09OneDSweep(r *fw.Rec, od c09OneD, n int) {
 // ---------------------------------------------------------------------------
 
 func c09(c *fw.Ctx) {
-	c.Rule("symbols from the library's writers (Encode(content, format, 0, h, hints): 1 px/module with the default quiet zone; QR: forced version 1..40 x random level x mask hint none/0..7, contents numeric (incl. digit runs), alphanumeric, UTF-8, ISO-8859-1 byte payloads imitating finder patterns (runs of 0x00/0xFF, 1011101 bit patterns, 7-byte finder rows, alternation) and random bytes; Data Matrix: all 30 sizes via digit strings of 2 x data-codewords length under the shape hint, digit runs, letters; nine 1-D symbologies with contents from the writers table and digit/character runs, writer image height 1..60 rows); posed by the harness only: white padding 0..40 px per side (independent, all-zero, uniform, one side bare), pixel replication 1..6, clockwise rotation 0/90/180/270, transposition (QR, 1/3 of poses); read through NewBinaryBitmapFromImage + the matching single-format reader with no hints or TRY_HARDER; per QR symbol additionally Decoder.Decode of the bare upright and transposed module matrix; per 1-D symbol the obligations rot180 (default and TRY_HARDER), rot90/rot270 (TRY_HARDER) under generous conditions (scale 2..6, 30..60 rows, padding >= 10 px); an upside-down sweep of 250 x 12 (quick) / 250 x 200 (thorough) further symbols per 1-D symbology with one cheap pose each (7/8 rot180, 1/8 upright; scale 2..3, 30 rows, quiet >= 12 px) so that per-number ambiguities with a rate of 1e-3 (quick) / 1e-4 (thorough) are met; 1-D contents beyond the writers table: Codabar full data alphabet with explicit/alternative guards, Code 128 and Code 93 all of ASCII, ITF 16..40 digits; distinct = distinct (symbology, content, symbol parameters)")
+	c.Rule("symbols from the library's writers (Encode(content, format, 0, h, hints): 1 px/module with the default quiet zone; QR: forced version 1..40 x random level x mask hint none/0..7, contents numeric (incl. digit runs), alphanumeric, UTF-8, kanji (Shift_JIS hint), ISO-8859-1 byte payloads imitating finder patterns (runs of 0x00/0xFF, 1011101 bit patterns, 7-byte finder rows, alternation) and random bytes; Data Matrix: all 30 sizes via digit strings of 2 x data-codewords length under the shape hint, digit runs, letters; nine 1-D symbologies with contents from the writers table and digit/character runs, writer image height 1..60 rows); posed by the harness only: white padding 0..40 px per side (independent, all-zero, uniform, one side bare), pixel replication 1..6, clockwise rotation 0/90/180/270, transposition (QR, 1/3 of poses); read through NewBinaryBitmapFromImage + the matching single-format reader with no hints or TRY_HARDER; per QR symbol additionally Decoder.Decode of the bare upright and transposed module matrix; per 1-D symbol the obligations rot180 (default and TRY_HARDER), rot90/rot270 (TRY_HARDER) under generous conditions (scale 2..6, 30..60 rows, padding >= 10 px); an upside-down sweep of 250 x 12 (quick) / 250 x 200 (thorough) further symbols per 1-D symbology with one cheap pose each (7/8 rot180, 1/8 upright; scale 2..3, 30 rows, quiet >= 12 px) so that per-number ambiguities with a rate of 1e-3 (quick) / 1e-4 (thorough) are met; 1-D contents beyond the writers table: Codabar full data alphabet with explicit/alternative guards, Code 128 and Code 93 all of ASCII, ITF 16..40 digits; distinct = distinct (symbology, content, symbol parameters)")
 	c.Assume("canonical 1-D texts are computed independently (onedref.Mod10 / UPCEExpand for EAN-13, EAN-8, UPC-A, UPC-E; content itself for Code 39/93/128, ITF, Codabar whose guards the reader strips); UPC-E is always written from 8 digits with the reference check digit")
 	c.Assume("2-D symbols through the detector and 1-D symbols in arbitrary poses may be read or refused with NotFound/Checksum/Format (tallied per symbology, scale, rotation); ORIENTATION metadata of sideways reads and of upright reads, the barcode format field and result points are don't-care here")
-	c.Assume("only the single-format reader matching the writer is used (multi-format readers legitimately report UPC-A as EAN-13 etc.); Code 39 is read with the default (non-extended, no check digit) reader; ITF lengths 6..14 (the reader's default allowed lengths); Codabar >= 2 data characters")
+	c.Assume("only the single-format reader matching the writer is used (multi-format readers legitimately report UPC-A as EAN-13 etc.); Code 39 is read with the default (non-extended, no check digit) reader; ITF lengths 6..14 (the reader's default allowed lengths) and 16..40 (anything longer than the largest allowed length is accepted; 2 and 4 digits are refused by contract and not generated); Codabar >= 2 data characters (the reader refuses shorter symbols by contract)")
+
+	c.Note("signature UPC_E:misread:row-accepted-in-reverse-direction = the UPC-E reader accepts an upside-down symbol in the forward direction three runs out of step (reversed end guard 101010 starts like the start guard 101; decodeDigit scales every 4-run group by its own width, so groups 5..9 modules wide pass; parity table and one check digit remain): exhaustively 3952 of the 2,000,000 UPC-E numbers (0.198%) at integer scales >= 2, e.g. 12602483 upside down is delivered as 16711983; repaired by notes/fix-c09-1-upce-upside-down-run-shifted-misread.diff (digit widths and end guard must agree with the module width measured over the six digits)")
 
 	// QR
-	nq := c.Pick(400, 10000) // symbols; version = 1 + (i*7)%40 visits every version equally
+	nq := c.Pick(640, 20000) // symbols; version = 1 + (i*7)%40 visits every version equally
 	for i := 0; i < nq; i++ {
 		i := i
 		v := 1 + (i*7)%40
 		c.Run(fmt.Sprintf("qr/v%02d/%d", v, i), func(r *fw.Rec) { c09QRCase(r, v, 12, i < 2) })
 	}
 	// Data Matrix
-	nd := c.Pick(300, 7500)
+	nd := c.Pick(480, 15000)
 	for i := 0; i < nd; i++ {
 		i := i
 		k := i % 30
 		c.Run(fmt.Sprintf("dm/%02d/%d", k, i), func(r *fw.Rec) { c09DMCase(r, k, i/30, 12, i < 2) })
 	}
 	// 1-D
-	no := c.Pick(80, 2000)
+	no := c.Pick(120, 4000)
 	for _, od := range c09OneDs {
 		od := od
 		for i := 0; i < no; i++ {
@@ -809,18 +817,18 @@ func c09(c *fw.Ctx) {
 	}
 
 	c.Floor("poses", int64(c.Pick(35000, 700000)))
-	c.Floor("qr_decoder_upright_ok", int64(c.Pick(300, 8000)))
-	c.Floor("qr_decoder_mirrored_ok", int64(c.Pick(300, 8000)))
-	c.Floor("QR_CODE_read_at_scale_ge3", int64(c.Pick(600, 15000)))
-	c.Floor("DATA_MATRIX_read_at_scale_ge3", int64(c.Pick(400, 10000)))
-	c.Floor("QR_CODE_mirrored_read", int64(c.Pick(200, 5000)))
-	c.Floor("QR_CODE_class_finder-like-bytes", int64(c.Pick(80, 2000)))
+	c.Floor("qr_decoder_upright_ok", int64(c.Pick(500, 16000)))
+	c.Floor("qr_decoder_mirrored_ok", int64(c.Pick(500, 16000)))
+	c.Floor("QR_CODE_read_at_scale_ge3", int64(c.Pick(1000, 30000)))
+	c.Floor("DATA_MATRIX_read_at_scale_ge3", int64(c.Pick(600, 20000)))
+	c.Floor("QR_CODE_mirrored_read", int64(c.Pick(300, 10000)))
+	c.Floor("QR_CODE_class_finder-like-bytes", int64(c.Pick(120, 4000)))
 	for v := 1; v <= 40; v++ {
-		c.Floor(fmt.Sprintf("QR_CODE_version_%02d", v), int64(c.Pick(5, 150)))
+		c.Floor(fmt.Sprintf("QR_CODE_version_%02d", v), int64(c.Pick(8, 300)))
 		c.Floor(fmt.Sprintf("QR_CODE_version_%02d_read_at_scale_ge3", v), 1)
 	}
 	for _, s := range dmref.Symbols() {
-		c.Floor(fmt.Sprintf("DATA_MATRIX_size_%dx%d", s.Rows, s.Cols), int64(c.Pick(5, 150)))
+		c.Floor(fmt.Sprintf("DATA_MATRIX_size_%dx%d", s.Rows, s.Cols), int64(c.Pick(8, 300)))
 		c.Floor(fmt.Sprintf("DATA_MATRIX_size_%dx%d_read_at_scale_ge3", s.Rows, s.Cols), 1)
 	}
 	for _, od := range c09OneDs {
